@@ -87,6 +87,19 @@ def c08_jobs(tier):
     return [job("ZZ_C08_Lossless", E, n=n) for n in range(0, (5 if tier == "quick" else 7) + 1)]
 
 
+# ---------------------------------------------------------------- C07
+def c07_jobs(tier):
+    js = []
+    maxn = 4 if tier == "quick" else 5
+    for n in range(0, maxn + 1):
+        for w in range(1, min(n + 2, 4 if tier == "quick" else 5) + 1):
+            js.append(job("ZZ_C07_ParEquiv", E, n=n, w=w))
+    if tier == "thorough":
+        for w in [6, 7]:
+            js.append(job("ZZ_C07_ParEquiv", E, n=4, w=w))
+    return js
+
+
 # ---------------------------------------------------------------- C02
 S = K + "/service"
 
@@ -125,8 +138,8 @@ C = K + "/app/cli"
 
 def c17_jobs(tier):
     js = []
-    days = [0, 2] if tier == "quick" else [0, 1, 2, 3, 4]
-    rounds = [0, 1, 3, 7] if tier == "quick" else list(range(8))
+    days = [0] if tier == "quick" else [0, 1, 2, 3, 4]
+    rounds = [0, 1, 7] if tier == "quick" else list(range(8))
     for d in days:
         for r in rounds:
             for sel in range(4):
@@ -180,12 +193,22 @@ CHECKS = {
     "C17": {
         "jobs": c17_jobs,
         "bounds": {
-            "quick": "clock at every minute (hour, minute symbolic) of 2021-06-15 and 2021-12-31; roundings {none,5,12,60}; start x {default,--today,--yesterday,--tomorrow} x {records for yesterday/today/tomorrow, empty file}; stop x 5 layouts (open range today / yesterday only / yesterday with a record today / both / none) with every start time; total --now at every minute",
+            "quick": "clock at every minute (hour, minute symbolic) of 2021-06-15; roundings {none,5,60}; start x {default,--today,--yesterday,--tomorrow} x {records for yesterday/today/tomorrow, empty file}; stop x 5 layouts (open range today / yesterday only / yesterday with a record today / both / none) with every start time; total --now at every minute",
             "thorough": "5 days (ordinary, month end, year end, leap day, day after), all 8 roundings",
         },
         "outside": "explicit --time / --date values (covered by C04's command model); clocks outside UTC; switch (= stop + start)",
         "stubs": [MODELS["regexp"], MODELS["fmt"], MODELS["tabulate"], "app.Context: harness implementation (zzContext) holding the file as text and re-parsing it with the real parser, mirroring app.context.ReconcileFile"],
         "assumptions": COMMON_ASSUME,
+    },
+    "C07": {
+        "jobs": c07_jobs,
+        "bounds": {
+            "quick": "every byte string of length 0..4 x worker counts 1..min(n+2,4) x every order in which the workers can deliver their results (all w! orders)",
+            "thorough": "every byte string of length 0..5 x workers 1..5 x all delivery orders; length 4 with 6 and 7 workers",
+        },
+        "outside": "longer texts; interleavings finer than result delivery (workers share only immutable strings and the result channel: assumed, not shown); the real record parser as ParseOne (the engine is generic: a deterministic stub ParseOne that echoes the block and flags lines starting with `!` is used; composition with the real parse is covered by C01/C10 serial-vs-parallel jobs)",
+        "stubs": [MODELS["utf8"], MODELS["bytealg"], "goroutines as coroutines under the engine scheduler; channel receive chooses nondeterministically among pending senders (all orders explored); sync.WaitGroup modelled; math.Ceil on concrete floats"],
+        "assumptions": COMMON_ASSUME + ["ParseOne is a pure function of its block", "native replay forces the explored delivery order through the build-tag `verif` schedule point in processAsync"],
     },
     "C02": {
         "jobs": c02_jobs,
